@@ -63,12 +63,19 @@ Definition tOn := RTT_IdentifierOrKeyword KK_On.
 Definition tVar := RTT_Keyword (KK_Var DK_Other).
 Definition tConst := RTT_Keyword (KK_Const DK_Other).
 Definition tEq := RTT_Op (OK_Equal EK_Comp).
+Definition tType := RTT_Keyword KK_Type.
+Definition tRecord := RTT_Keyword KK_Record.
+Definition tClass := RTT_Keyword KK_Class.
+Definition tPrivate := RTT_IdentifierOrKeyword KK_Private.
+Definition tPublic := RTT_IdentifierOrKeyword KK_Public.
 Definition retype (t : RawTokenType) : RawTokenType :=
   match t with
   | RTT_IdentifierOrKeyword KK_On => RTT_Keyword KK_On
   | RTT_Keyword (KK_Var DK_Other) => RTT_Keyword (KK_Var DK_Section)       (* the keyword of a var section *)
   | RTT_Keyword (KK_Const DK_Other) => RTT_Keyword (KK_Const DK_Section)
-  | RTT_Op (OK_Equal EK_Comp) => RTT_Op (OK_Equal EK_Decl)                 (* the `=` of a constant declaration *)
+  | RTT_Op (OK_Equal EK_Comp) => RTT_Op (OK_Equal EK_Decl)                 (* the `=` of a constant or type declaration *)
+  | RTT_IdentifierOrKeyword KK_Private => RTT_Keyword KK_Private           (* the keyword of a visibility section *)
+  | RTT_IdentifierOrKeyword KK_Public => RTT_Keyword KK_Public
   | _ => t
   end.
 
@@ -316,3 +323,63 @@ Definition main_lines (K LI : nat) (ss : stmts) : list lline :=
 Definition pexpected_unit (ds : list decl) (ss : stmts) : list lline :=
   let dl := decl_lines 0 ds in dl ++ main_lines (length (render_decls ds)) (length dl) ss.
 Definition expected_unit (ds : list decl) (ss : stmts) : list lline := finalize (pexpected_unit ds ss).
+
+(* ------------------------------------------------------------------ *)
+(* units with type sections as well (the definitions above stay as they are; `udecl` extends `decl`):
+     unit2 ::= {udecl} `begin` stmts `end` `.` Eof
+     udecl ::= `var` {field}  |  `const` {Identifier `=` Identifier `;`}  |  `type` {tdef}
+     field ::= Identifier `:` Identifier `;`
+     tdef  ::= Identifier `=` `record` {field} `end` `;`
+            |  Identifier `=` `class` {field} {(`private` | `public`) {field}} `end` `;`
+   every member of a section makes one line of type Declaration one level deeper than the line of the section
+   keyword; the fields of a record or class are one level deeper than its `Identifier = record` line, the
+   visibility keywords and the closing `end ;` are at the level of that line *)
+Inductive tdef : Set := TRec (n : nat) | TCls (n0 : nat) (vs : list (bool * nat)).
+Inductive udecl : Set := UVar (n : nat) | UConst (n : nat) | UType (ts : list tdef).
+Definition render_fields (n : nat) : list RawTokenType := render_members [tI; tColon; tI; tSemi] n.
+Fixpoint render_vsecs (vs : list (bool * nat)) : list RawTokenType :=
+  match vs with [] => [] | (pv, n) :: r => (if pv : bool then tPrivate else tPublic) :: render_fields n ++ render_vsecs r end.
+Definition render_tdef (td : tdef) : list RawTokenType :=
+  match td with
+  | TRec n => tI :: tEq :: tRecord :: render_fields n ++ [tEnd; tSemi]
+  | TCls n0 vs => tI :: tEq :: tClass :: render_fields n0 ++ render_vsecs vs ++ [tEnd; tSemi]
+  end.
+Fixpoint render_tdefs (ts : list tdef) : list RawTokenType :=
+  match ts with [] => [] | td :: r => render_tdef td ++ render_tdefs r end.
+Definition render_udecl (dc : udecl) : list RawTokenType :=
+  match dc with
+  | UVar n => tVar :: render_fields n
+  | UConst n => tConst :: render_members [tI; tEq; tI; tSemi] n
+  | UType ts => tType :: render_tdefs ts
+  end.
+Fixpoint render_udecls (ds : list udecl) : list RawTokenType :=
+  match ds with [] => [] | dc :: r => render_udecl dc ++ render_udecls r end.
+Definition render_unit2 (ds : list udecl) (ss : stmts) : list RawTokenType := render_udecls ds ++ render_prog ss.
+(* n members of four tokens each, from token k on, at level lv *)
+Fixpoint member_lines_at (lv : N) (k n : nat) : list lline :=
+  match n with O => [] | S n' => mkLine LLT_Declaration lv None [k; k + 1; k + 2; k + 3] :: member_lines_at lv (k + 4) n' end.
+Fixpoint vsec_lines (k : nat) (vs : list (bool * nat)) : list lline :=
+  match vs with
+  | [] => []
+  | (_, n) :: r => mkLine LLT_Unknown 1%N None [k] :: member_lines_at 2%N (k + 1) n ++ vsec_lines (k + 1 + 4 * n) r
+  end.
+Definition tdef_lines (k : nat) (td : tdef) : list lline :=
+  let e := k + length (render_tdef td) - 2 in
+  mkLine LLT_Declaration 1%N None [k; k + 1; k + 2]
+  :: match td with
+     | TRec n => member_lines_at 2%N (k + 3) n
+     | TCls n0 vs => member_lines_at 2%N (k + 3) n0 ++ vsec_lines (k + 3 + 4 * n0) vs
+     end
+  ++ [mkLine LLT_Unknown 1%N None [e; e + 1]].
+Fixpoint tdefs_lines (k : nat) (ts : list tdef) : list lline :=
+  match ts with [] => [] | td :: r => tdef_lines k td ++ tdefs_lines (k + length (render_tdef td)) r end.
+Definition usection_lines (k : nat) (dc : udecl) : list lline :=
+  match dc with UVar n | UConst n => member_lines_at 1%N k n | UType ts => tdefs_lines k ts end.
+Fixpoint udecl_lines (k : nat) (ds : list udecl) : list lline :=
+  match ds with
+  | [] => []
+  | dc :: r => mkLine LLT_Unknown 0%N None [k] :: usection_lines (k + 1) dc ++ udecl_lines (k + length (render_udecl dc)) r
+  end.
+Definition pexpected_unit2 (ds : list udecl) (ss : stmts) : list lline :=
+  let dl := udecl_lines 0 ds in dl ++ main_lines (length (render_udecls ds)) (length dl) ss.
+Definition expected_unit2 (ds : list udecl) (ss : stmts) : list lline := finalize (pexpected_unit2 ds ss).
